@@ -3,6 +3,7 @@ package c03
 import (
 	"bytes"
 	"fmt"
+	"runtime"
 	"testing"
 
 	kit "github.com/dapr/kit/crypto"
@@ -484,6 +485,42 @@ func TestSymLongLengths(t *testing.T) {
 					c.Mut = &mutation{Comp: "aad", Kind: "trunc", N: 1}
 				}
 				runSym(t, sec, c)
+			}
+		}
+	}
+}
+
+// symHugeLens: message lengths of hundreds of KiB to a few MiB, at and off block and power-of-two boundaries (an
+// implementation that treats large messages differently - in parts, in parallel, through another code path - does so
+// somewhere up here, and the number of blocks is then not a multiple of whatever it divides by).
+var symHugeLens = []int{262144 - 16, 262144, 262144 + 16, 262144 + 7*16, 262144 + 8*16 + 8, 300000, 524288 + 48, 1048576, 1048576 + 3*16, 1500000, 4194304 + 5*16}
+
+// TestSymHugeLengths: every algorithm x the lengths of symHugeLens (lengths outside an algorithm's domain are the
+// ill-formed twin), under the machine's GOMAXPROCS and under 2, 3 and 5.
+func TestSymHugeLengths(t *testing.T) {
+	sec := vk.Sec("SymHugeLengths")
+	idx := 0
+	for pi, procs := range []int{0, 2, 3, 5} {
+		for si, s := range refcrypto.SymSpecs {
+			for li, pl := range symHugeLens {
+				idx++
+				// quick: every algorithm and length under the default GOMAXPROCS, a rotating third under the others
+				if !vk.Thorough() && (pl > 600000 || (procs != 0 && (si+li+pi)%3 != 0)) {
+					continue // (the lengths above 600000 and the full grid: thorough tier)
+				}
+				if !vk.Mine(idx) {
+					continue
+				}
+				c := symCase{API: []string{"sym", "generic"}[idx%2], Alg: s.Name, KeyKind: "oct", KeyLen: s.Key, NonceLen: max(s.Nonce, 0), PtLen: pl, AadLen: []int{0, 33}[idx%2], Seed: uint64(idx) * 977}
+				if idx%4 == 3 {
+					c.Mut = &mutation{Comp: "ct", Kind: "flip", Pos: pl - 1, Mask: 0x01}
+				}
+				func() {
+					if procs > 0 {
+						defer runtime.GOMAXPROCS(runtime.GOMAXPROCS(procs))
+					}
+					runSym(t, sec, c)
+				}()
 			}
 		}
 	}
